@@ -501,11 +501,16 @@ class Frame:
 
     def st_For(self, s):
         items = self.unrollable(s.iter)
-        if items is not None and not any(isinstance(x, (ast.Break, ast.Continue)) for b in s.body for x in ast.walk(b)):
+        if items is not None and not any(isinstance(x, ast.Break) for b in s.body for x in ast.walk(b)):
             pairs = _alias_pairs(s.target, s.iter)
             for i, e in enumerate(items):
                 self.assign(s.target, e, s)
+                self.breaks.append([])
                 out = self.block(s.body)
+                for kind, cond, e_ in reversed(self.breaks.pop()):      # conditional `continue`: its state joins the end of this iteration
+                    self.env = self.merge(cond, e_, self.env)
+                if out == CONTINUE:
+                    out = FALL
                 # the loop variable aliases the list element: in-place updates through it are updates of the element
                 for elem_t, src in pairs:
                     if elem_t.id in self.mutated and self.is_place(src):
